@@ -57,6 +57,38 @@ BUILT = {
             "timed reference-model monitor"),
 }
 
+# technique tail for checks whose level text is taken from the module (LEVEL, RULE)
+TAILS = {
+    'C01': "fixed-point and per-evaluation oracle against an executable CBlock reference model at every quiescent point",
+    'C02': "predictive output-event model for sequential senders, chaining monitor for combinational senders",
+    'C05': "initialisation model + wait_init() contract + metamorphic creation-order permutation",
+    'C06': "crash-point enumeration over the storage journal, restart on a fresh virtual loop, persistence reference model",
+    'C09': "competing error sources at chosen virtual instants, ground-truth delivery order recorded at the fault site",
+    'C10': "brute-force consistency oracle for cyclic networks, bounded-evaluation monitor",
+    'C11': "re-entry monitor around SBlock.event, event-flow reference model, follow-up delivery to every block",
+    'C14': "ExtEvent.send at every lifecycle phase of the simulated circuit, delivered-iff-running oracle",
+    'C15': "connection biconditional and frozen-structure invariants checked at every quiescent point and lifecycle instant",
+    'C16': "dictionary-operation reference model for filter pipelines in live deliveries, initialisation-race rule",
+    'C17': "input validation reference model over put histories, restart from (tampered) storage, expiry ties consumed as observed",
+    'C18': "repeat monitor consuming the observed order of ties (exact in the latency-free stratum)",
+    'C20': "accumulator reference model over event histories incl. restart from out-of-range stored values",
+}
+
+
+def module_consts(pid):
+    """LEVEL and RULE of checks/<pid>.py without importing it."""
+    import ast
+    path = os.path.join(VERIF, 'checks', pid.lower() + '.py')
+    out = {}
+    with open(path, encoding='utf-8') as f:
+        tree = ast.parse(f.read())
+    for node in tree.body:
+        if isinstance(node, ast.Assign) and isinstance(node.targets[0], ast.Name) \
+                and node.targets[0].id in ('LEVEL', 'RULE', 'LEVEL_TEXT'):
+            out[node.targets[0].id] = ast.literal_eval(node.value)
+    return out
+
+
 NOT_APPLICABLE = {
     'C13': "pure parsing/membership functions of their arguments: no schedule, clock, fault or "
            "interleaving is involved, so deterministic simulation has nothing to decide "
@@ -66,13 +98,23 @@ NOT_APPLICABLE = {
 }
 
 
+# checks that were validated on the unchanged tree (clean long runs, determinism self-test)
+READY = {'C17', 'C18', 'C20'}
+
+
 def main():
     props = [json.loads(line) for line in open(os.path.join(VERIF, 'properties.jsonl'))]
     checks = []
     na = []
     for p in props:
         pid = p['id']
-        if pid in BUILT and os.path.exists(os.path.join(VERIF, 'checks', pid.lower() + '.py')):
+        have = os.path.exists(os.path.join(VERIF, 'checks', pid.lower() + '.py'))
+        if have and pid not in BUILT and pid in TAILS and pid in READY:
+            consts = module_consts(pid)
+            BUILT[pid] = (consts['LEVEL'],
+                          consts.get('LEVEL_TEXT') or ("seeded search; " + consts['RULE']),
+                          TAILS[pid])
+        if pid in BUILT and have:
             level, text, tail = BUILT[pid]
             checks.append({
                 "property_id": pid,
